@@ -69,7 +69,13 @@ class H:
     def fval(self, base="f"):
         nm = self.name(base)
         if self.storage == "mem":
+            if self.cfg.get("floats"):
+                # int- or float-typed by selector; the float is a quarter (k/4), e.g. 2.5, -0.25
+                if choose(self.name(base + "kind"), 2):
+                    return lpe.sym_quarter(nm)
             return sym_int(nm)
+        if self.cfg.get("floats"):
+            return (choose(nm, 5) - 2) / 2  # -1.0, -0.5, 0.0, 0.5, 1.0
         return choose(nm, 3) - 1
 
     def tagval(self, base="g", alpha=TAG_ALPHA):
@@ -273,7 +279,7 @@ class H:
         except Exception as e:
             fail(lambda: f"read raised {type(e).__name__}: {e} [{tag}]")
         require(n == len(exp), lambda: f"count={n}, expected {len(exp)} [{tag}]")
-        require(c is (len(exp) > 0), lambda: f"contains={show(c)}, expected {len(exp) > 0} [{tag}]")
+        require(isinstance(c, bool) and c == (len(exp) > 0), lambda: f"contains={show(c)}, expected {len(exp) > 0} [{tag}]")
         if exp:
             require(g is not None, lambda: f"get returned None, expected a point [{tag}]")
             self.req_point(g, exp[0], f"get [{tag}]")
